@@ -441,6 +441,7 @@ fn spawn_worker(parser: &str, start: usize, end: usize, tier: &str, scratch: &st
 fn drive_range(parser: &str, mut start: usize, end: usize, tier: &str, list: &[(String, Vec<u8>)], scratch: &std::path::Path, slot: usize) -> Stats {
     let mut total = Stats::default();
     let mut deaths = 0;
+    let mut hangs = 0;
     while start < end {
         let (out, at_raw, size) = spawn_worker(parser, start, end, tier, scratch, slot);
         let hung = at_raw >> 63 == 1;
@@ -486,6 +487,14 @@ fn drive_range(parser: &str, mut start: usize, end: usize, tier: &str, list: &[(
             total.merge(drive_range(parser, start, idx, tier, list, scratch, slot));
         }
         start = idx + 1;
+        if hung {
+            hangs += 1;
+        }
+        if hangs >= 3 {
+            // every hang costs 20 s of watchdog time: three are verdict enough for this range
+            total.caps.push(format!("{}: 3 hangs in one range; remaining cases {}..{} skipped", parser, start, end));
+            return total;
+        }
         if deaths > 200 {
             total.caps.push(format!("{}: more than 200 process deaths in one range; remaining cases {}..{} skipped", parser, start, end));
             return total;
